@@ -392,7 +392,13 @@ func (p *Program) ghostField(structT types.Type, name string) *GhostField {
 		return nil
 	}
 	for _, g := range p.ghosts {
-		if g.Name == name && g.Recv == n.Obj().Name() && (n.Obj().Pkg() == nil || g.Pkg == n.Obj().Pkg().Path()) {
+		if g.Name != name {
+			continue
+		}
+		if g.Recv == n.Obj().Name() && (n.Obj().Pkg() == nil || g.Pkg == n.Obj().Pkg().Path()) {
+			return g
+		}
+		if n.Obj().Pkg() != nil && (g.Recv == n.Obj().Pkg().Name()+"."+n.Obj().Name() || g.Recv == n.Obj().Pkg().Path()+"."+n.Obj().Name()) {
 			return g
 		}
 	}
@@ -667,8 +673,15 @@ func (p *Program) scanSentinels() {
 	}
 }
 
+// stdSentinels: standard-library error variables created with errors.New and never reassigned.
+var stdSentinels = map[string]bool{"io.EOF": true, "io.ErrUnexpectedEOF": true, "io/fs.ErrNotExist": true, "os.ErrNotExist": true,
+	"context.Canceled": true, "io.ErrShortWrite": true, "io.ErrClosedPipe": true}
+
 func (p *Program) isPlainSentinel(g *ssa.Global) bool {
 	v, ok := g.Object().(*types.Var)
+	if ok && v.Pkg() != nil && stdSentinels[v.Pkg().Path()+"."+v.Name()] {
+		return true
+	}
 	return ok && p.sentinels[v]
 }
 
@@ -745,6 +758,13 @@ func (p *Program) moduleFuncs() []*ssa.Function {
 				for _, op := range in.Operands(nil) {
 					if f, ok := (*op).(*ssa.Function); ok {
 						add(f)
+					}
+				}
+				if mi, ok := in.(*ssa.MakeInterface); ok {
+					// methods reachable through dynamic dispatch (also of instantiated generic types)
+					ms := p.SSA.MethodSets.MethodSet(mi.X.Type())
+					for i := 0; i < ms.Len(); i++ {
+						add(p.SSA.MethodValue(ms.At(i)))
 					}
 				}
 			}
